@@ -41,6 +41,9 @@ func runRegistryModel(o *Options, res *Result, hists [][]regOp) error {
 	for i, ops := range hists {
 		var os_, obs []string
 		for _, op := range ops {
+			if op.Kind == "parsebad" {
+				continue // rejected sources never reach the registry: not an operation of the model
+			}
 			os_ = append(os_, gRop(op))
 			obs = append(obs, gRobs(op.Obs))
 		}
